@@ -21,7 +21,12 @@ PROPS = {
     'C17': dict(units=['world'], witness='alloc',
                 assumptions=[HEADROOM]),
     'C03': dict(units=['storage'], witness=None, assumptions=[HEADROOM] + STORAGE_ASSUME),
-    'C04': dict(units=['storage'], witness=None, assumptions=[HEADROOM] + STORAGE_ASSUME),
+    'C04': dict(units=['storage', 'flagged'], witness=None, assumptions=[HEADROOM] + STORAGE_ASSUME),
+    'C12': dict(units=['flagged', 'flagged_ec', 'storage'], witness=None,
+                assumptions=STORAGE_ASSUME + ["shrev::EventChannel::single_write appends one event and a reader registered earlier receives appended events in order (assumed contract on shrev)",
+                                              "FlaggedStorage::shared_get_mut (raw pointer into the channel, used only by parallel joins) is excluded",
+                                              "bulk clear() emits nothing by design (stated in the property)",
+                                              "both cfg variants of the storage-event-control feature are extracted and verified (units flagged / flagged_ec)"]),
     'C13': dict(units=['storage'], witness=None, assumptions=[HEADROOM] + STORAGE_ASSUME + ["parallel / SharedGetOnly variants are not covered (N3)", "join-membership of restricted storages is part of C06's join unit"]),
     'C05': dict(units=['world'], witness='alloc',
                 assumptions=[HEADROOM, "WorldExt::delete_components is an ASSUMED contract (its body iterates shred's MetaTable<dyn AnyStorage>): it removes exactly the given indices from every listed storage and touches nothing else",
@@ -31,6 +36,10 @@ PROPS = {
 TB = "Trusted: prelude stubs for hibitset / NonZeroI32 / atomics / Vec::extend (assumed contracts), N3 sequentialisation, headroom preconditions, Verus+Z3, the vx extractor's closed list of normalisations (each application recorded in the evidence)."
 
 MANIFEST_TEXT = {
+    'C12': dict(
+        level="Unbounded proof: FlaggedStorage's real `impl UnprotectedStorage` is verified by Verus against the trait-level contract extended with an event effect (insert appends exactly Inserted(id), remove and the default drop exactly Removed(id), get_mut exactly Modified(id), get/clean nothing; nothing at all while emission is off — both cfg variants of storage-event-control); DerefFlaggedStorage's methods likewise, with get_mut emitting nothing and FlaggedAccessMut::deref_mut exactly one Modified per call. The generic layer (unit storage) then shows Storage::insert/remove/get_mut, entry removal, drain and MaskedStorage::drop produce exactly the corresponding effect once, and reads none.",
+        design_ref='DESIGN.md §5 C12', note=TB + ' shrev channel stub; shared_get_mut excluded.',
+        technique='Verus: real trait impl checked against a trait-level contract with an event-log effect; effect composition through the storage layer'),
     'C03': dict(
         level="Unbounded proof per access path: every handle-taking function (Storage::{get,contains,get_mut,insert,remove,entry}, both get_mut_or_default impls, restricted get_other/get_other_mut) is verified, for an arbitrary storage kind, to return nothing / refuse and to leave the whole map and the event log unchanged whenever EntitiesRes::is_alive(handle) is false; is_alive itself is proved equal to 'current' in unit alloc, and the trace lemmas show a dead handle never becomes current again, reused index or not.",
         design_ref='DESIGN.md §5 C03', note=TB + ' Trait-level storage contract.',
